@@ -191,6 +191,8 @@ def run(ctx):
         distinct.add(line)
         k = ri.split(" ")[0].strip("()")
         dist[kind + "/" + k] += 1
+        if k == "budget":
+            continue      # the harness' recording visitor gave up (> 2M recorded elements, within the configured limits): skipped, counted above
         if k not in ("ok", "err"):
             violations.append({"impl_case": line, "what": "deserialization of untrusted bytes did not return Ok or Err: %s" % ri[:160]})
             continue
